@@ -190,12 +190,12 @@ theorem content_lookup (l : Layout) (content : List (Nat × DbContent)) (hnd : (
       rw [lookupB_append_none _ _ _ (dbFiles_other l oid oid' d' fn (fun e => h e.symm))]
       exact ih hnd.2
 
-/-! ### without segments and tablespaces every heap is one file under `base/<db>/` -/
+/-! ### without segments, tablespaces, relocated catalogs and fast defaults every relation is one file under `base/<db>/` -/
 
 theorem heapFiles_plain (ver oid : Nat) (d : DbContent) (h : Nat × List (List RowV)) (ht : ∀ r ∈ d.cls.live, r.tblspc = 0) :
-    heapFiles ver 0 oid d h = [(pathBase oid h.1, encRowPages (colsOfFilenode d h.1) h.2)] := by
-  have hp : heapPath ver oid d h.1 = pathBase oid h.1 := by
-    unfold heapPath
+    heapFiles ver 0 oid d h 0 = [(pathBase oid h.1, encRowPages (colsOfFilenode d h.1) h.2)] := by
+  have hp : heapPath ver oid d h.1 0 = pathBase oid h.1 := by
+    unfold heapPath pathDb
     cases hf : relOfFilenode d.cls h.1 with
     | none => rfl
     | some r =>
@@ -212,38 +212,100 @@ theorem flatten_map_singleton {α β} (f : α → β) (g : α → List β) (l : 
     rw [h x (by simp), ih (fun y hy => h y (by simp [hy]))]
     rfl
 
-theorem dbFilesPlaced_plain (ver : Nat) (l : Layout) (oid : Nat) (d : DbContent) (ht : ∀ r ∈ d.cls.live, r.tblspc = 0) :
-    dbFilesPlaced ver 0 l oid d = dbFiles l oid d := by
+theorem dbFilesPlaced_plain (ver : Nat) (l : Layout) (oid : Nat) (d : DbContent) (ht : ∀ r ∈ d.cls.live, r.tblspc = 0)
+    (h1259 : mappedNode d.relmap 1259 = 1259) (h1249 : mappedNode d.relmap 1249 = 1249) (hm : d.missing = []) :
+    dbFilesPlaced ver 0 l oid d 0 = dbFiles l oid d := by
   unfold dbFilesPlaced dbFiles
   rw [flatten_map_singleton (fun (p : Nat × List (List RowV)) => (pathBase oid p.1, encRowPages (colsOfFilenode d p.1) p.2))
-    (heapFiles ver 0 oid d) d.heaps (fun h _ => heapFiles_plain ver oid d h ht)]
+    (fun h => heapFiles ver 0 oid d h 0) d.heaps (fun h _ => heapFiles_plain ver oid d h ht), h1259, h1249, hm, attrValsM_nil]
+  rfl
 
-theorem filesOf_plain (c : Cluster) (hp : c.Plain) :
-    filesOf c = [(strBytes "PG_VERSION", natBytes c.pgVersion ++ [10]),
-      (pathGlobal 1262, encHeapOf (pgDatabaseCols c.pgVersion) (dbVals c.pgVersion) c.dbs)] ++
-      (c.content.map fun (p : Nat × DbContent) => dbFiles c.layout p.1 p.2).flatten := by
-  unfold filesOf
-  congr 2
+theorem dbTblspc_plain (c : Cluster) (hp : ∀ db ∈ c.dbs.live, db.tblspc = 0) (oid : Nat) : dbTblspc c oid = 0 := by
+  unfold dbTblspc
+  cases hf : c.dbs.live.find? (fun db => db.oid == oid) with
+  | none => rfl
+  | some db => exact hp db (mem_of_find?_eq_some hf)
+
+/-- the relation files of a plain cluster (everything but the pg_filenode.map files) -/
+def plainFiles (c : Cluster) : List (Bytes × Bytes) :=
+  [(strBytes "PG_VERSION", natBytes c.pgVersion ++ [10]),
+   (pathGlobal 1262, encHeapOf (pgDatabaseCols c.pgVersion) (dbVals c.pgVersion) c.dbs)] ++
+  (c.content.map fun (p : Nat × DbContent) => dbFiles c.layout p.1 p.2).flatten
+
+theorem filesOf_plain (c : Cluster) (hp : c.Plain) (hid : c.IdentityMapped) (hnm : c.NoFastDefaults) :
+    filesOf c = plainFiles c ++ mapFilesOf c := by
+  unfold filesOf plainFiles
+  rw [hid.1]
+  congr 3
   apply map_congr_left
   intro p hpm
-  rw [hp.1]
-  exact dbFilesPlaced_plain c.pgVersion c.layout p.1 p.2 (hp.2 p hpm)
+  obtain ⟨oid, d⟩ := p
+  simp only
+  rw [hp.1, dbTblspc_plain c hp.2.2]
+  exact dbFilesPlaced_plain c.pgVersion c.layout oid d (hp.2.1 _ hpm) (hid.2 _ hpm).1 (hid.2 _ hpm).2 (hnm _ hpm)
+
+/-! ### the pg_filenode.map files do not shadow or answer for any relation file -/
+
+theorem sb_mapname : strBytes "/pg_filenode.map" = 47 :: 112 :: (strBytes "/pg_filenode.map").drop 2 := by rw [strBytes_eq]; rfl
+
+theorem pathMapDb_ne (oid oid' fn ver : Nat) : pathMapDb 0 ver oid' ≠ pathBase oid fn := by
+  intro he
+  unfold pathMapDb at he
+  rw [if_pos rfl, pathBase_eq, sb_base, sb_mapname] at he
+  have h1 : natBytes oid' ++ 47 :: (112 :: (strBytes "/pg_filenode.map").drop 2) = decBytes oid ++ 47 :: decBytes fn := by
+    simpa [List.append_assoc] using he
+  obtain ⟨_, h3⟩ := digits_slash_cancel _ _ _ _ (fun x hx => (decBytes_digits oid' x hx).1) (fun x hx => (decBytes_digits oid x hx).1) h1
+  have hmem : (112 : UInt8) ∈ decBytes fn := by rw [← h3]; simp
+  exact absurd (decBytes_digits fn 112 hmem).2 (by decide)
+
+theorem pathMapGlobal_ne (oid fn : Nat) : pathMapGlobal ≠ pathBase oid fn := by
+  intro he
+  rw [pathBase_eq] at he
+  have : pathMapGlobal = 103 :: pathMapGlobal.tail := by unfold pathMapGlobal; rw [strBytes_eq]; rfl
+  rw [this] at he
+  simp only [cons_append, cons.injEq] at he
+  exact absurd he.1 (by decide)
+
+theorem mapFiles_base (c : Cluster) (hp : ∀ db ∈ c.dbs.live, db.tblspc = 0) (oid fn : Nat) :
+    (mapFilesOf c).lookup (pathBase oid fn) = none := by
+  apply lookupB_none_of_keys
+  intro e he hk
+  unfold mapFilesOf at he
+  simp only [mem_cons, mem_map] at he
+  rcases he with rfl | ⟨p, _, rfl⟩
+  · exact pathMapGlobal_ne oid fn hk
+  · simp only [dbTblspc_plain c hp] at hk
+    exact pathMapDb_ne oid p.1 fn c.pgVersion hk
+
+/-- looking a `base/<db>/<n>` path up in the whole tree = looking it up among the relation files -/
+theorem filesOf_lookup_base (c : Cluster) (hp : c.Plain) (hid : c.IdentityMapped) (hnm : c.NoFastDefaults) (oid fn : Nat) :
+    (filesOf c).lookup (pathBase oid fn) = (plainFiles c).lookup (pathBase oid fn) := by
+  rw [filesOf_plain c hp hid hnm]
+  cases hl : (plainFiles c).lookup (pathBase oid fn) with
+  | some v => exact lookupB_append_some _ _ _ _ hl
+  | none => rw [lookupB_append_none _ _ _ hl]; exact mapFiles_base c hp.2.2 oid fn
 
 /-- **The encoded file tree is the tree the theorems talk about** — for a cluster without segmented heaps and without
-tablespaces (`Cluster.Plain`; the open findings C01-SEG and C01-TBLSPC are about the others). -/
-theorem treeOf_fsOf (c : Cluster) (hnd : (c.content.map (·.1)).Nodup) (hp : c.Plain) : TreeOf c (fsOf c) := by
+tablespaces (`Cluster.Plain`; open findings C01-SEG and C01-TBLSPC are about the others), whose mapped catalogs still live
+under their oids (`Cluster.IdentityMapped`; open finding C01-MAPPED) and that records no fast defaults
+(`Cluster.NoFastDefaults`; open finding C01-MISSINGVAL). -/
+theorem treeOf_fsOf (c : Cluster) (hnd : (c.content.map (·.1)).Nodup) (hp : c.Plain) (hid : c.IdentityMapped)
+    (hnm : c.NoFastDefaults) : TreeOf c (fsOf c) := by
   have hbase : ∀ oid fn, fsOf c (basePath oid fn) =
       match c.content.lookup oid with
       | some d => (dbFiles c.layout oid d).lookup (pathBase oid fn)
       | none => none := by
     intro oid fn
     unfold fsOf
-    rw [filesOf_plain c hp, basePath_eq]
+    rw [basePath_eq, filesOf_lookup_base c hp hid hnm]
+    unfold plainFiles
     simp only [cons_append, nil_append, lookup_cons, sb_pgversion_ne, sb_global_ne]
     exact content_lookup c.layout c.content hnd oid fn
   refine ⟨?_, ?_, ?_, ?_, ?_⟩
   · unfold fsOf
-    rw [filesOf_plain c hp]
+    rw [filesOf_plain c hp hid hnm]
+    apply lookupB_append_some
+    unfold plainFiles
     simp only [cons_append, nil_append, lookup_cons, global_ne_version, pathGlobal_1262, beq_self_eq_true]
   · intro oid d hl
     rw [hbase, hl]
